@@ -491,6 +491,18 @@ class History:
                 raise Violation("clone-differs", f"{self.trace[-1]}: clone has different parameters")
             if freeze_params(obj) != params:
                 raise Violation("clone-differs", f"{self.trace[-1]}: cloning changed the original's parameters")
+            if live.last_fit is not None and not live.unknown and live.spec[0] != "vspline":
+                # the clone is a separate estimator: fitting it (to other data) must not disturb the original,
+                # e.g. through step/component objects shared between the two
+                pool = self.u.datasets[live.ncomp]
+                other = pool[(live.last_fit + 1) % len(pool)]
+                before = observe(obj, self.u.queries[0])
+                self.must(self.trace[-1] + ": fitting the clone", lambda: new.fit(other.coordinates, other.data_arg(), other.weights_arg()))
+                ok, _ = same_result(observe(obj, self.u.queries[0]), before, rtol=RTOL_REPEAT)
+                if not ok:
+                    raise Violation("clone-differs", f"{self.trace[-1]}: fitting the clone changed what the original estimator predicts (shared state)")
+                new = self.must(self.trace[-1], lambda: clone(obj))
+                self.probe("clone_fitted_original_unchanged")
             if self.tape.coin(0.5, "copy.continue_on_clone"):
                 live.obj = new
                 live.last_fit, live.unknown, live.touched = None, False, False
